@@ -72,7 +72,7 @@ func NewEngine(repo string) *Engine {
 	im := types.NewMap(intT, intT)
 	bm := types.NewMap(intT, boolT)
 	for n, t := range map[string]types.Type{
-		"now": intT, "timerDeadline": im, "chanSent": im, "chanClosed": bm, "lockHeld": im, "syncedWith": bm,
+		"now": intT, "timerDeadline": im, "chanSent": im, "chanClosed": bm, "lockHeld": im, "syncedWith": bm, "lockReleased": bm,
 		"ev_spawn": intT, "ev_exit": intT,
 	} {
 		e.ghostDecls[n] = &ghostDecl{name: n, typ: t}
